@@ -157,11 +157,15 @@ func loadCorpus(repo string) []*CorpusDef {
 
 // DefFault describes one storage fault on a definition.
 type DefFault struct {
-	Kind   string `json:"kind"` // truncate | flip | delete_path | replace_path | duplicate_member | multi
+	Kind   string `json:"kind"` // truncate | flip | delete_path | replace_path | duplicate_member | multi | typeswap
 	Offset int    `json:"offset,omitempty"`
 	Path   string `json:"path,omitempty"`
 	Repl   string `json:"repl,omitempty"`
 	Seed   uint64 `json:"seed,omitempty"`
+	// typeswap: the type member at Path becomes Repl (another type seen in the corpus in the same
+	// position) and, optionally, the sibling member Path2 is damaged with Repl2 ("" = deleted)
+	Path2 string `json:"path2,omitempty"`
+	Repl2 string `json:"repl2,omitempty"`
 }
 
 func (f DefFault) String() string {
@@ -268,6 +272,16 @@ func ApplyDefFault(def []byte, f DefFault) []byte {
 		// turn the encoded duplicate members into real duplicates
 		out = bytes.ReplaceAll(out, []byte(`\u0000dup"`), []byte(`"`))
 		return out
+	case "typeswap":
+		out := ApplyDefFault(def, DefFault{Kind: "replace_path", Path: f.Path, Repl: f.Repl})
+		if f.Path2 != "" {
+			if f.Repl2 == "" {
+				out = ApplyDefFault(out, DefFault{Kind: "delete_path", Path: f.Path2})
+			} else {
+				out = ApplyDefFault(out, DefFault{Kind: "replace_path", Path: f.Path2, Repl: f.Repl2})
+			}
+		}
+		return out
 	case "multi":
 		r := sim.SplitMix64{S: f.Seed}
 		out := append([]byte{}, def...)
@@ -319,6 +333,118 @@ func stripDeleted(x any) any {
 		return out
 	}
 	return x
+}
+
+// typeContext names the position of a type member: the nearest non-numeric ancestor key.
+func typeContext(path string) string {
+	if strings.HasSuffix(path, "/ruleset_type") {
+		return "ruleset_type"
+	}
+	parts := strings.Split(strings.TrimPrefix(path, "/"), "/")
+	for i := len(parts) - 2; i >= 0; i-- {
+		if len(parts[i]) > 0 && (parts[i][0] < '0' || parts[i][0] > '9') {
+			return parts[i] + "." + parts[len(parts)-1]
+		}
+	}
+	return parts[len(parts)-1]
+}
+
+func isTypeKey(path string) bool {
+	return strings.HasSuffix(path, "/type") || strings.HasSuffix(path, "/ruleset_type")
+}
+
+// TypeAlternatives collects, over a corpus, every string value seen for type members by position.
+func TypeAlternatives(defs []*CorpusDef, repo string) map[string][]string {
+	seen := map[string]map[string]bool{}
+	docs := [][]byte{}
+	for _, d := range defs {
+		docs = append(docs, d.Bytes)
+	}
+	// fragments too (test data of single actions, rulesets, routers ...)
+	filepath.Walk(repo, func(p string, info os.FileInfo, err error) error {
+		if err == nil && !info.IsDir() && strings.HasSuffix(p, ".json") && strings.Contains(p, "testdata") && info.Size() < 2000000 {
+			if b, err := os.ReadFile(p); err == nil {
+				docs = append(docs, b)
+			}
+		}
+		return nil
+	})
+	for _, doc := range docs {
+		var root any
+		if json.Unmarshal(doc, &root) != nil {
+			continue
+		}
+		var paths []string
+		jsonPaths(root, "", &paths)
+		for _, p := range paths {
+			if !isTypeKey(p) {
+				continue
+			}
+			var val any
+			editPath(root, p, func(parent any, key string) {
+				if m, ok := parent.(map[string]any); ok {
+					val = m[key]
+				}
+			})
+			if sv, ok := val.(string); ok {
+				ctx := typeContext(p)
+				if seen[ctx] == nil {
+					seen[ctx] = map[string]bool{}
+				}
+				seen[ctx][sv] = true
+			}
+		}
+	}
+	out := map[string][]string{}
+	for _, ctx := range gen.SortedKeys(seen) {
+		out[ctx] = gen.SortedKeys(seen[ctx])
+	}
+	return out
+}
+
+// TypeSwapFaults: every type member becomes every other type seen in that position, alone and
+// combined with damage to each sibling member (a structurally plausible definition whose
+// members do not fit its type).
+func TypeSwapFaults(def []byte, alts map[string][]string) []DefFault {
+	var root any
+	if json.Unmarshal(def, &root) != nil {
+		return nil
+	}
+	var paths []string
+	jsonPaths(root, "", &paths)
+	var out []DefFault
+	for _, p := range paths {
+		if !isTypeKey(p) {
+			continue
+		}
+		var cur any
+		var siblings []string
+		editPath(root, p, func(parent any, key string) {
+			if m, ok := parent.(map[string]any); ok {
+				cur = m[key]
+				for _, k := range gen.SortedKeys(m) {
+					if k != key {
+						siblings = append(siblings, k)
+					}
+				}
+			}
+		})
+		base := p[:strings.LastIndex(p, "/")]
+		for _, alt := range alts[typeContext(p)] {
+			if alt == cur {
+				continue
+			}
+			q, _ := json.Marshal(alt)
+			out = append(out, DefFault{Kind: "typeswap", Path: p, Repl: string(q)})
+			for _, sib := range siblings {
+				sp := base + "/" + strings.ReplaceAll(sib, "/", "~1")
+				for _, r2 := range []string{"", `""`, `null`, `{}`, `[]`} {
+					out = append(out, DefFault{Kind: "typeswap", Path: p, Repl: string(q), Path2: sp, Repl2: r2})
+				}
+			}
+		}
+	}
+	return out
 }
 
 // SingleFaults enumerates the single-fault space of a definition. If complete is false the
